@@ -32,7 +32,7 @@ def run_C14(ctx):
 
 
 def run_C15(ctx):
-    drive_and_validate(ctx, [{"driver": "C15", "n": sz(ctx, 1600, 60000)}])
+    drive_and_validate(ctx, [{"driver": "C15", "n": sz(ctx, 480, 24000)}])
 
 
 def run_C16(ctx):
